@@ -24,11 +24,11 @@ G = "orquestra.quantum.circuits._gates"
 MANIFEST = {
     "engine": "engine-M",
     "category": "proof",
-    "technique": "contract-based deductive verification: postconditions 'matrix / qubit count / params of the modified gate == specification applied in the same order' generated from the real text of the wrapper classes (ControlledGate, Dagger, Power and their re-association rules) by shadow execution over an exact domain, decided for all real parameters and a generic custom matrix, exhaustively over modifier chains up to length 3; sympy's fractional power / matrix exponential by bounded native checks",
+    "technique": "contract-based deductive verification: (i) the INDUCTION STEP over modifier nesting for ALL wrapped gates, control counts and exponents (Engine V, the real text of the wrapper classes on an opaque wrapped gate whose own modifiers mean what they say - the hypothesis): width, parameters and matrix of every wrapper, and of every modifier applied to a wrapper, stated on the observable attributes of the result (never on its structure, so equivalent re-associations verify), relative to an abstract matrix algebra (adjoint / power / nested identity blocks of a block-diagonal matrix, adjoint of exp and of an integer power); (ii) postconditions 'matrix / qubit count / params of the modified gate == specification applied in the same order' generated from the real text of the wrapper classes (ControlledGate, Dagger, Power and their re-association rules) by shadow execution over an exact domain, decided for all real parameters and a generic custom matrix, exhaustively over modifier chains up to length 3; sympy's fractional power / matrix exponential by bounded native checks",
     "text": "Each re-association rule (Dagger.controlled, Power.controlled, ControlledGate.power/dagger, ...) is exercised by every chain up to length 3 and decided as a matrix identity for all parameters - a universal statement over parameters that tests sample at one value. Chains longer than 3 follow from the same rules but are not enumerated (bound stated). Fractional powers and exp depend on sympy numerics: bounded, time-boxed.",
     "note": "Trusted: exact domain reading of sympy Matrix ops (adjoint, diag, **int, subs), floats-as-reals. Bounds: chain length 3, total controls 3, listed base gates. Not decided: sympy's Matrix**(1/q) and Matrix.exp() (bounded native only).",
 }
-TRUSTED = ["vfw/trig.py exact domain as the meaning of sympy.Matrix.adjoint/diag/eye/**n/subs", "shadow execution of the real _gates.py text", "z3 nlsat second opinion (<= 4x4)"]
+TRUSTED = ["abstract matrix algebra of props/C07struct.py (block-diagonal laws, adj(adj m) = m, adj(exp m) = exp(adj m), adj(m^e) = adj(m)^e for integer e; uninterpreted diag / eye / adjoint / exp / **)", "vfw/trig.py exact domain as the meaning of sympy.Matrix.adjoint/diag/eye/**n/subs", "shadow execution of the real _gates.py text", "z3 nlsat second opinion (<= 4x4)"]
 ASSUMPTIONS = ["bounded in modifier-chain length (3) and total control count (3); base gates: X, S, RX, U3, CNOT, XY, custom generic 2x2",
                "sympy Matrix ** fraction and Matrix.exp() are library numerics: checked natively on small gates only",
                "machine arithmetic treated as mathematical in the symbolic part"]
@@ -237,6 +237,8 @@ OK = bool(np.allclose(D @ M, np.eye(len(M)), atol=1e-9)); OBSERVED = f"|D M - I|
         return core.discharged("shadow-execution", queries=2)
     obs.append(Ob("C07.controlled.args", "finite", [G + ":ControlledGate.__post_init__"], ctrl_bad, "a control count below 1 is rejected with ValueError"))
 
+    from props import C07struct
+    obs.extend(C07struct.build(vprop.enum_ob("x", [], lambda: range(6), _check_native, "").run))
     obs.append(vprop.enum_ob("C07.native.enum", FN, lambda: range(6), _check_native,
                              "bounded (time-boxed sympy): unit-fraction powers (q-th power of the root is the original), negative integer powers, matrix exponential "
                              "vs scipy.expm incl. several exp-wrapped gates evaluated one after the other, numeric modifier chains, Power.dagger for fractional "
